@@ -84,18 +84,23 @@ pub fn case_seq(bytes: &[u8], _s: &[u8], ctx: &mut Ctx) -> Result<(), Fail> {
         let mut rate = f64::NAN;
         let mut reported_len = 0usize;
         let mut calls = 0;
+        let (mut rate_after, mut rate_mid) = (None::<f64>, None::<(usize, f64)>);
         r.consume(|mut drain| {
             calls += 1;
             rate = drain.sample_rate();
             reported_len = drain.len();
             match cyc.take {
-                None => got.extend(&mut drain),
+                None => {
+                    got.extend(&mut drain);
+                    rate_after = Some(drain.sample_rate());
+                }
                 Some(k) => {
                     for _ in 0..k {
                         if let Some(v) = drain.next() {
                             got.push(v)
                         }
                     }
+                    rate_mid = Some((got.len(), drain.sample_rate()));
                 }
             }
         });
@@ -117,6 +122,16 @@ pub fn case_seq(bytes: &[u8], _s: &[u8], ctx: &mut Ctx) -> Result<(), Fail> {
         }
         let expect_rate = if n == expect_len { 1.0 } else { expect_len as f64 / n as f64 };
         ensure!(rate == expect_rate, "sample-rate-wrong", "cycle {}: cap {} pushed {} -> sample_rate {} expected {}", ci, case.capacity, n, rate, expect_rate);
+        // the rate is a fact about the drain, whenever it is asked for: once every value has been yielded it is
+        // yielded / pushed; half-way through, either that or (values yielded so far) / pushed
+        if let Some(ra) = rate_after {
+            ensure!(ra == expect_rate, "sample-rate-wrong", "cycle {}: cap {} pushed {}: sample_rate() after all {} values were yielded is {}, expected {}", ci, case.capacity, n, got.len(), ra, expect_rate);
+            ctx.class("sample-rate-read-after-iteration");
+        }
+        if let Some((j, rm)) = rate_mid {
+            let so_far = if n == 0 { 1.0 } else { j as f64 / n as f64 };
+            ensure!(rm == expect_rate || rm == so_far, "sample-rate-wrong", "cycle {}: cap {} pushed {}: sample_rate() after {} of {} values is {}, expected {} (or {} counting only the values yielded so far)", ci, case.capacity, n, j, expect_len, rm, expect_rate, so_far);
+        }
         ensure!(r.is_empty(), "not-empty-after-drain", "cycle {}: is_empty() false right after a drain", ci);
     }
     // the next drain starts from empty
